@@ -351,6 +351,21 @@ func ruleC16R1(w *World, r *Report) {
 			r.bad(rule, construct, w.pos(f.Pos()), fmt.Sprintf("is not `t.Kind == TokenIdent && char.EqualFold(t.%s, s)` (kind guard ok=%v, fold ok=%v, calls=%d): pseudo-keywords would be matched case-sensitively or on the wrong spelling", want, okKind, okFold, ncalls))
 		}
 	}
+	// a spelling that went through a case normaliser is no longer case-sensitive: char.EqualFold, char.ToUpper, and the
+	// ASCII-compatible standard functions (`switch char.ToUpper(tok.Raw) { case "ALTER": … }`)
+	caseNormaliser := func(f *ssa.Function) bool {
+		if f == eq {
+			return true
+		}
+		if f == nil || f.Pkg == nil {
+			return false
+		}
+		switch f.Pkg.Pkg.Path() + "." + f.Name() {
+		case modRoot + "/char.ToUpper", "strings.ToUpper", "strings.ToLower", "strings.EqualFold":
+			return true
+		}
+		return false
+	}
 	// spellings in the parser
 	var srcs []ssa.Value
 	for _, fn := range w.ModFns {
@@ -383,7 +398,7 @@ func ruleC16R1(w *World, r *Report) {
 	if len(srcs) < 10 {
 		r.errorf("only %d reads of Token.Raw/AsString found in the parser", len(srcs))
 	}
-	sl := w.forwardSlice(srcs, func(f *ssa.Function) bool { return f == eq })
+	sl := w.forwardSlice(srcs, caseNormaliser)
 	// spellings parked in the tree and read back by the parser (ident.Name == "VALUE"): the string fields of ast
 	// nodes that receive a spelling are spellings too
 	type fkey struct {
@@ -425,7 +440,7 @@ func ruleC16R1(w *World, r *Report) {
 		}
 	}
 	if nback > 0 {
-		sl = w.forwardSlice(srcs, func(f *ssa.Function) bool { return f == eq })
+		sl = w.forwardSlice(srcs, caseNormaliser)
 	}
 	r.count("spelling fields of ast nodes read back in the parser", nback)
 	nbad := 0
@@ -466,19 +481,49 @@ func ruleC16R1(w *World, r *Report) {
 					r.bad(rule, "map lookup by spelling in "+funcName(fn), w.pos(x.Pos()), "a token spelling is used as a map key: case-sensitive")
 				}
 			}
-		case *ssa.Call:
-			c := x.Call.StaticCallee()
-			if c != nil && (strings.HasPrefix(c.Name(), "ToUpper") || strings.HasPrefix(c.Name(), "ToLower") || c.Name() == "Title") {
-				// case conversion: harmful when the result reaches an AST field
-				conv := w.forwardSlice([]ssa.Value{x}, nil)
-				for cv := range conv {
-					if ci, ok := cv.(ssa.Instruction); ok {
-						for _, u := range referrers(cv) {
-							if st, ok := u.(*ssa.Store); ok && st.Val == cv {
-								if fa, ok := st.Addr.(*ssa.FieldAddr); ok {
-									if n := fieldAddrStruct(fa); n != nil && n.Obj().Pkg() != nil && n.Obj().Pkg().Path() == modRoot+"/ast" {
-										nbad++
-										r.bad(rule, "case conversion into ast."+n.Obj().Name()+" in "+funcName(fn), w.pos(ci.Pos()), "a user-visible spelling is case-converted before it is stored in the AST")
+		}
+	}
+	// case conversion of a spelling: harmless for a comparison, harmful when the result reaches an AST field; and the
+	// standard parsers that know only some spellings of a keyword (strconv.ParseBool: true/TRUE/True)
+	for _, fn := range w.ModFns {
+		if fnPkgPath(fn) != modRoot || (fn.Signature.Recv() != nil && w.isLexerPtr(fn.Signature.Recv().Type())) {
+			continue
+		}
+		for _, b := range fn.Blocks {
+			for _, in := range b.Instrs {
+				x, ok := in.(*ssa.Call)
+				if !ok {
+					continue
+				}
+				c := x.Call.StaticCallee()
+				if c == nil {
+					continue
+				}
+				fromSpelling := false
+				for _, a := range x.Call.Args {
+					if sl[a] {
+						fromSpelling = true
+					}
+				}
+				if !fromSpelling {
+					continue
+				}
+				if c.Pkg != nil && c.Pkg.Pkg.Path() == "strconv" && c.Name() == "ParseBool" {
+					nbad++
+					r.bad(rule, "strconv.ParseBool of a spelling in "+funcName(fn), w.pos(x.Pos()), "the value is taken from the spelling by a function that knows only true/TRUE/True (false/FALSE/False): the lexer accepts every letter case of the keyword, tRUE yields false")
+					continue
+				}
+				if strings.HasPrefix(c.Name(), "ToUpper") || strings.HasPrefix(c.Name(), "ToLower") || c.Name() == "Title" {
+					conv := w.forwardSlice([]ssa.Value{x}, nil)
+					for cv := range conv {
+						if ci, ok := cv.(ssa.Instruction); ok {
+							for _, u := range referrers(cv) {
+								if st, ok := u.(*ssa.Store); ok && st.Val == cv {
+									if fa, ok := st.Addr.(*ssa.FieldAddr); ok {
+										if n := fieldAddrStruct(fa); n != nil && n.Obj().Pkg() != nil && n.Obj().Pkg().Path() == modRoot+"/ast" {
+											nbad++
+											r.bad(rule, "case conversion into ast."+n.Obj().Name()+" in "+funcName(fn), w.pos(ci.Pos()), "a user-visible spelling is case-converted before it is stored in the AST")
+										}
 									}
 								}
 							}
